@@ -25,6 +25,22 @@ CLAIMS["C02"] = dict(
     technique="Coq proofs (induction on the walk's fuel with a modular-arithmetic invariant; list/index algebra; cyclic re-indexing of sums) + exact vm_compute correspondence + independent numeric oracle",
 )
 
+CLAIMS["C14"] = dict(
+    text="Coq theorems: the flip-based padding and strided framing of pytorch_stft_frame_computer hands the filtering stage exactly compute_full's frames for EVERY signal length and every 0 < S <= L (torch_pad = np.pad symmetric incl. repeated reflection); both implementations share the segment walk proved correct for all D/start/len; empty results have the same number of columns; the energy coefficient identities over R; the torch pre-emphasis formulation equals the numpy one, which satisfies the documented recurrence.",
+    note="Trusted: Coq kernel; hand-written coq/Stft/Torch.v tied by exact capture of the frames at torch.fft.rfft (index-coded signals) and one-hot walk probes of the torch port; energy theorems over R (stdlib real axioms). Module-vs-NumPy values (float32 buffers: 2e-5 / 2e-3 tolerances), wrappers, TorchScript == eager, and the RNG distribution of PyTorchDither are differential only.",
+    technique="Coq proof (list algebra; shared walk theorem; real identities) + exact vm_compute correspondence + numeric differential oracle",
+)
+CLAIMS["C11"] = dict(
+    text="Coq theorems about read_signal's decision logic regenerated from util.py by a translator (suffix inference sound/complete incl. the table regex, IOError iff nothing matches, ValueError for stream-without/unknown force_as, inference and dispatch consistent, name = stream + inferred type, dtype = final astype for wav/npy/npz/pt/soundfile and HDF5's saturating conversion for hdf5, key selection, HDF5 default search = first dataset in sorted pre-order and terminates, wave decoding round trip for all widths/channels/lengths, wds_read_signal total); codec round trips per container x path/stream x dtype/key/force_as are differential.",
+    note="Trusted: Coq kernel (no axioms: all theorems closed under the global context); translator gen/readsig.py; third-party codecs (wave, numpy, torch, h5py, libsndfile) are oracles, _sphere.py is C12/C13; hand models of _wave_read_signal/_hdf5_read_signal tied by correspondence only; integer-coded array data; ASCII names in the compared cases; scipy branch of the wav reader not exercised (not installed).",
+    technique="Coq proof on a model generated from source by translator + vm_compute correspondence against the implementation + direct search",
+)
+CLAIMS["C15"] = dict(
+    text="Coq theorems about an executable model of Deltas/Stack for tensors of any rank: pad+correlate+crop equals the documented same-size correlation for every pad mode, the filter recursion (Kaldi) and its composition law, the exact layout of Deltas.apply for concatenate/stack along any target_axis with dtype kept, Stack's out[t,i*F+f]=x[t*n+i,f] for both code paths with drop/pad of the last run, and agreement of the 2-D and N-D paths; integer expressions of the code are regenerated from post.py by a translator and re-proved; the model is compared exactly with the implementation on generated integer tensors.",
+    note="Trusted: Coq kernel (no axioms); ast translator gen/post_c15.py; NumPy primitives as modelled (pad/correlate/convolve/slicing/concatenate/stack/reshape); float rounding not modelled (integer-coded runs); non-mutation/aliasing of the input only checked differentially.",
+    technique="Coq proof on a hand-written model whose integer expressions are generated from source + vm_compute correspondence + direct oracle",
+)
+
 _PENDING = "check not built yet in this round (planned, see DESIGN.md section 4); not claimed until its proof and tie exist"
 NOT_APPLICABLE = {
     "C%02d" % i: _PENDING for i in range(1, 21) if "C%02d" % i not in CLAIMS
